@@ -41,6 +41,31 @@ static int src_octet(void *d, void *o)
     return 1;
 }
 
+/* source flavours: 0 octet-style; 1 chunk-style delivering all that is asked for; 2 chunk-style delivering at most three
+ * octets per call; 3 chunk-style offering a 24-octet scratch buffer through the getbuffer extension (as a socket-backed
+ * endpoint would).  The protocol's behaviour must not depend on it. */
+static int srcflavour;
+static ssize_t src_chunk(void *d, void *o, size_t n)
+{
+    Arr *a = d;
+    if (a->pos >= a->n) return -ENODATA;
+    size_t m = a->n - a->pos;
+    if (m > n) m = n;
+    if (srcflavour == 2 && m > 3) m = 3;
+    memcpy(o, a->p + a->pos, m);
+    a->pos += m;
+    return (ssize_t)m;
+}
+static unsigned char *scratch;
+static ByteBuffer src_getbuffer(Source *s)
+{
+    (void)s;
+    ByteBuffer b;
+    if (!scratch) scratch = xblock(24);
+    byte_buffer_use(&b, scratch, 24);
+    return b;
+}
+
 /* ---- allocator with ledger: exact-size heap blocks */
 #define MAXLIVE 16
 static struct { void *live[MAXLIVE]; long allocs, frees, badfree; int failnext, slab; size_t blocksize; } L;
@@ -100,6 +125,8 @@ static void setup(RegP *p, int tr, int mem16, size_t blocksize, Arr *a)
     if (mem16) regp_use_memory16(p, r16, w16); else regp_use_memory8(p, r8, w8);
     B.ws = mem16 ? 2 : 1;
     Source s = OCTET_SOURCE_INIT(src_octet, a);
+    if (srcflavour) { Source c = CHUNK_SOURCE_INIT(src_chunk, a); s = c; }
+    if (srcflavour == 3) s.ext.getbuffer = src_getbuffer;
     Sink k = CHUNK_SINK_INIT(snk, NULL);
     regp_use_channel(p, tr == 0 ? RP_EP_SERIAL : RP_EP_TCP, s, k);
     L.blocksize = blocksize;
@@ -119,6 +146,7 @@ void adapter_exec(Ev *ev)
         int kind = (int)ev->a[0], tr = (int)ev->a[1], mem16 = (int)ev->a[2];
         reset_ledger(); memset(&B, 0, sizeof B);
         outn = 0;
+        srcflavour = 0;
         setup(&p, tr, mem16, 4096, &none);
         p.session.sequence = (uint16_t)ev->a[3];
         const long long *a = ev->a + 4;
@@ -198,7 +226,8 @@ void adapter_exec(Ev *ev)
         sstream = xblock(sstream_n ? sstream_n : 1);
         for (size_t i = 0; i < sstream_n; i++) sstream[i] = (unsigned char)ev->a[4 + i];
         sarr.p = sstream; sarr.n = sstream_n; sarr.pos = 0;
-        setup(&sp, (int)ev->a[0], (int)ev->a[1], (size_t)ev->a[2] + sizeof(RPFrame), &sarr);
+        srcflavour = ((int)ev->a[0] >> 2) & 3;
+        setup(&sp, (int)ev->a[0] & 3, (int)ev->a[1], (size_t)ev->a[2] + sizeof(RPFrame), &sarr);
         obs(ev, 0);
         return;
     }
@@ -206,7 +235,7 @@ void adapter_exec(Ev *ev)
         int mem16 = (int)ev->a[2];
         memset(&B, 0, sizeof B);
         L.allocs = L.frees = L.badfree = 0;
-        L.failnext = (int)ev->a[4];
+        L.failnext = (int)ev->a[4] & 1;
         B.verdict = ev->a[5]; B.vaddr = get_w32(ev->a + 6);
         B.nd = (int)ev->a[8]; B.data = ev->a + 9;
         B.ws = mem16 ? 2 : 1;
@@ -235,6 +264,7 @@ void adapter_exec(Ev *ev)
         reset_ledger(); memset(&B, 0, sizeof B);
         L.failnext = (int)ev->a[4] & 1;
         L.slab = ((int)ev->a[4] >> 1) & 1;      /* allocator flavour: generic (size passed) or slab (fixed blocks) */
+        srcflavour = ((int)ev->a[4] >> 2) & 3;
         B.verdict = ev->a[5]; B.vaddr = get_w32(ev->a + 6);
         B.nd = (int)ev->a[8]; B.data = ev->a + 9;
         int at = 9 + B.nd;
